@@ -23,7 +23,7 @@ Definition stage (p : pc) : nat :=
   | Idle => 0
   | WaitDone _ => 1
   | CallFin _ _ => 2
-  | InCall _ => 3
+  | InCall _ _ => 3
   | CWalk (KSame1 _) _ _ => 6
   | CWalk _ _ _ => 4
   | CLock (KSame1 _) _ => 7
